@@ -83,6 +83,20 @@ func main() {
 			pos := ld.Prog.Fset.Position(f.Pos())
 			fmt.Printf("%s line %d names=%v params=%d free=%v\n", f.Name(), pos.Line, names[f], len(f.Params), FreeVarNames(f))
 		}
+	case "listjobs":
+		p := registry[os.Args[2]]
+		ld, err := loadRepo(p.PkgDirs)
+		if err != nil {
+			fmt.Fprintln(os.Stderr, "load:", err)
+			os.Exit(2)
+		}
+		tier := "quick"
+		if len(os.Args) > 3 {
+			tier = os.Args[3]
+		}
+		for _, j := range p.Jobs(tier, ld.Prog) {
+			fmt.Println(j.ID)
+		}
 	case "checkjob":
 		p := registry[os.Args[2]]
 		ld, err := loadRepo(p.PkgDirs)
